@@ -144,8 +144,11 @@ class Ctx:
             per_rule[o['rule']] = per_rule.get(o['rule'], 0) + 1
         samples = list(self.samples)
         if not samples:
-            for o in self.obligations[:6]:
-                samples.append({k: o[k] for k in ('rule', 'construct', 'ok', 'detail', 'where') if o[k] not in ('', None)})
+            pick = [o for o in self.obligations if o['facts'] is not None and o['nontrivial']]
+            pick = (pick[:: max(1, len(pick) // 6)] if pick else self.obligations)[:8]
+            for o in pick:
+                samples.append({k: o[k] for k in ('rule', 'construct', 'ok', 'detail', 'where', 'facts')
+                                if o[k] not in ('', None)})
         cov: dict[str, object] = {
             'explanation': self.explanation,
             'evaluations': n,
